@@ -1,6 +1,6 @@
 """C13 Memory object streams: closing wakes everyone and errors tell the truth (see vf/memstream.py)."""
 from ..gen import composite
-from ..memstream import gen_case, run_stream_case
+from ..memstream import MAXES, gen_case, run_stream_case
 
 ID = "C13"
 RULE = ("Hypothesis-generated actor scripts as for C12 plus clone()/close() of any clone of either side at any time "
@@ -23,7 +23,24 @@ def budget(tier):
     return 20000 if tier == "quick" else 400000
 
 
-_strategy = composite(lambda g: gen_case(g, closing=True))
+def _gen(g):
+    if g.chance(8):
+        # targeted shape: two receivers parked, a send hands its item to the first one, which is cancelled natively
+        # in the same cycle (the window of finding F8, whose lost item is C12's business), then the last send
+        # handle is closed while the second receiver is still parked
+        tail = [[g.choice(["recv", "recv_nw"]), g.int(1, 3), 0] for _ in range(g.int(0, 2))]
+        return {"config": g.choice(["S", "S", "E", "U"]), "max": g.choice(MAXES), "ns": 1, "nr": g.int(1, 2),
+                "keep_r": g.bool(), "nest": g.choice([0, 0, 1]), "allow_f8": True,
+                "actors": [[["recv", 0, 0]] + tail, [["recv", 1, g.int(0, 1)]] + tail,
+                           [["sendc", 3, 0, 0, True], g.choice([["close_s", g.int(0, 2), 0], ["send", g.int(0, 1), 0]]),
+                            ["close_s", g.int(0, 2), 0]]]}
+    case = gen_case(g, closing=True)
+    # C13's rules do not look at whether every item arrives, so the F8 window need not be excluded here
+    case["allow_f8"] = g.chance(50)
+    return case
+
+
+_strategy = composite(_gen)
 
 
 def strategy(tier):
